@@ -8,3 +8,10 @@ MUTANTS = [
     {'name': 'encoder misnames timing', 'file': 'partitura/musicanalysis/performance_codec.py', 'old': '    parameter_names = ["beat_period", "velocity", "timing", "articulation_log"]', 'new': '    parameter_names = ["beat_period", "velocity", "micro_timing", "articulation_log"]', 'expect': 'NAMES'}]
 
 NEUTRALS = []
+
+# changes made by sub-agents that were given only the property text (see /verif/seeded/<id>/): each must stay reported
+SEEDED = [
+    {'name': 'seeded change C18-r2', 'seed': 'C18-r2', 'expect': '|F9a-mask|'},
+    {'name': 'seeded change C18', 'seed': 'C18', 'expect': '|ORDER|'},
+]
+MUTANTS += SEEDED
